@@ -39,6 +39,7 @@ def histgen(rng, oids):
         delete_one=4, delete_many=1, find=0, count=0, distinct=0, create_index=5,
         drop_index=0, drop_indexes=1, drop=1), ttl=False)
     hg.ug.malformed = 0.22
+    hg.dollar_values = 0.04
     return hg
 
 
